@@ -3,17 +3,17 @@ CONSTANTS
   Conns = {1}
   HsKinds = {"valid"}
   TgtKinds = {"ok"}
-  MaxC = 3
-  MaxT = 3
+  MaxC = 2
+  MaxT = 2
   MaxTok = 7
   AllowBad = FALSE
-  AllowSplit = TRUE
+  AllowSplit = FALSE
   AllowRst = FALSE
   AllowTClose = FALSE
   AllowCRst = FALSE
   Planned = TRUE
   Timeout = 2
-  MaxNow = 0
+  MaxNow = 4
   DrainMode = "inner"
   Strict = TRUE
   WithServe = FALSE
@@ -22,4 +22,5 @@ CONSTANTS
   SlackLate = 0
   SlackSched = 0
 INVARIANTS DumpInv
+ACTION_CONSTRAINT LateRelay
 CHECK_DEADLOCK FALSE
